@@ -338,10 +338,10 @@ theorem eraseDups_eq_nil {α} [BEq α] (l : List α) : l.eraseDups = [] ↔ l = 
   | cons a l => simp [List.eraseDups_cons]
 
 theorem stageAttrs_ok {a : List Name} {api api' : Api} (h : stageAttrs a api = .ok api') :
-    (∀ n ∈ wantedAttrs a api.schema, n ∈ api.schema) ∧
-    api' = { namespaces := api.namespaces.map (Namespace.restrict (wantedAttrs a api.schema))
-             schema := api.schema.filter (fun n => n ∈ wantedAttrs a api.schema)
-             schemaByName := api.schemaByName.filter (fun n => n ∈ wantedAttrs a api.schema)
+    (∀ n ∈ wantedAttrs a api.allFields, n ∈ api.allFields) ∧
+    api' = { namespaces := api.namespaces.map (Namespace.restrict (wantedAttrs a api.allFields))
+             schema := api.schema.filter (fun n => n ∈ wantedAttrs a api.allFields)
+             schemaByName := api.schemaByName.filter (fun n => n ∈ wantedAttrs a api.allFields)
              schemaInherited := api.schemaInherited } := by
   unfold stageAttrs at h
   simp only at h
@@ -361,10 +361,10 @@ theorem prune_ok {o : Opts} {api api' : Api} (h : prune o api = .ok api') :
     ∃ f, stageParse o = .ok f ∧
       (∀ n ∈ o.whitelist, api.hasNamespace n = true) ∧
       (∀ n ∈ o.blacklist, api.hasNamespace n = true) ∧
-      (∀ n ∈ wantedAttrs o.attributes api.schema, n ∈ api.schema) ∧
-      api' = { namespaces := api.namespaces.map (nsPipeline o f (wantedAttrs o.attributes api.schema))
-               schema := api.schema.filter (fun n => n ∈ wantedAttrs o.attributes api.schema)
-               schemaByName := api.schemaByName.filter (fun n => n ∈ wantedAttrs o.attributes api.schema)
+      (∀ n ∈ wantedAttrs o.attributes api.allFields, n ∈ api.allFields) ∧
+      api' = { namespaces := api.namespaces.map (nsPipeline o f (wantedAttrs o.attributes api.allFields))
+               schema := api.schema.filter (fun n => n ∈ wantedAttrs o.attributes api.allFields)
+               schemaByName := api.schemaByName.filter (fun n => n ∈ wantedAttrs o.attributes api.allFields)
                schemaInherited := api.schemaInherited } := by
   unfold prune at h
   cases hp : stageParse o with
@@ -386,14 +386,16 @@ theorem prune_ok {o : Opts} {api api' : Api} (h : prune o api = .ok api') :
           cases f <;> simp [stageFilter, hb2, hw2]
         have hschema3 : (stageFilter f api2).schemaInherited = api.schemaInherited := by
           cases f <;> simp [stageFilter, hb2, hw2]
+        have hall : (stageFilter f api2).allFields = api.allFields := by
+          simp [Api.allFields, hschema, hschema3]
         refine ⟨f, rfl, hw1, ?_, ?_, ?_⟩
         · intro n hn
           have := hb1 n hn
           rw [hw2] at this
           rw [hasNamespace_map api _ (fun ns => by split <;> rfl)] at this
           exact this
-        · simpa [hschema] using ha1
-        · rw [ha2, hschema, hschema2, hschema3]
+        · simpa [hall] using ha1
+        · rw [ha2, hall, hschema, hschema2, hschema3]
           congr 1
           cases f with
           | none =>
@@ -438,15 +440,19 @@ theorem prune_error_of_blacklist {o : Opts} {api : Api} (h : ∃ n ∈ o.blackli
     obtain ⟨n, hn, hh⟩ := h
     simp [hb n hn] at hh
 
-theorem prune_error_of_attribute {o : Opts} {api : Api} (hall : allAttributes ∉ o.attributes)
-    (h : ∃ n ∈ o.attributes, n ∉ api.schema) : ∃ err, prune o api = .error err := by
+theorem prune_error_of_attribute {o : Opts} {api : Api}
+    (h : ∃ n ∈ o.attributes, n ≠ allAttributes ∧ n ∉ api.allFields) : ∃ err, prune o api = .error err := by
   cases hr : prune o api with
   | error e => exact ⟨e, rfl⟩
   | ok api' =>
     obtain ⟨f, _, _, _, ha, _⟩ := prune_ok hr
-    obtain ⟨n, hn, hh⟩ := h
+    obtain ⟨n, hn, hna, hh⟩ := h
     have hne : o.attributes ≠ [] := by intro h0; simp [h0] at hn
-    have : n ∈ wantedAttrs o.attributes api.schema := by simp [wantedAttrs, hne, hall, hn]
+    have : n ∈ wantedAttrs o.attributes api.allFields := by
+      unfold wantedAttrs
+      by_cases hall : allAttributes ∈ o.attributes
+      · simp [hne, hall, hn, hna]
+      · simp [hne, hall, hn]
     exact absurd (ha n this) hh
 
 theorem prune_error_of_filter {o : Opts} {api : Api} {fe} (h : stageParse o = .error fe) :
